@@ -4,9 +4,9 @@ CONSTANTS ZMax = 2
           XBandLeftOpen = FALSE
           NMin = 5
           N = 5
-          GapMax = 2
+          GapMax = 3
           HMax = 2
-          WMax = 2
+          WMax = 3
           HBMin = 1
           HBMax = 2
 INVARIANT ResultOk
